@@ -320,9 +320,9 @@ inline bool genConstraint(Rng& r, const Built& R, const State& sr, const ConGenO
 // ------------------------------------------------------------------ small dense helpers
 // residual of projecting y onto span(columns of A) — modified Gram-Schmidt with
 // re-orthogonalisation; columns below dropTol*max are dropped. Returns ||r||_2; rank out.
-inline double rangeResidual(const std::vector<std::vector<double>>& cols, std::vector<double> y, int* rankOut = nullptr, double* minPivotRatio = nullptr) {
+inline double rangeResidual(const std::vector<std::vector<double>>& cols, std::vector<double> y, int* rankOut = nullptr, double* minPivotRatio = nullptr, double scale = 0) {
     size_t n = y.size(); std::vector<std::vector<double>> Q;
-    double maxn = 0; for (auto& c : cols) { double s = 0; for (double x : c) s += x * x; maxn = std::max(maxn, std::sqrt(s)); }
+    double maxn = scale; for (auto& c : cols) { double s = 0; for (double x : c) s += x * x; maxn = std::max(maxn, std::sqrt(s)); }
     double minratio = 1;
     for (auto c : cols) {
         double n0 = 0; for (double x : c) n0 += x * x; n0 = std::sqrt(n0);
